@@ -685,7 +685,7 @@ mod v_socket_dns {
         }};
     }
 
-    // @harness props=C19,C03 cfg=KN tier=q to=900 mem=12 unwind=7 opts=nomem covers=5 funcs=dns::Socket::accepts;dns::Socket::process;dns::Socket::start_query;wire::dns::Packet::parse_name;wire::dns::Question::parse;wire::dns::Record::parse;wire::dns::RecordData::parse;dns::eq_names;dns::copy_name bounds=query_name_<1>x<1>y_with_symbolic_label_bytes,_type_A_or_AAAA,_txid/port/timers_symbolic;_response_=_byte_template_with_symbolic_id/flags/QDCOUNT/ANCOUNT/NSCOUNT/ARCOUNT,_question_<1>x<1>y_with_symbolic_label_bytes_and_TYPE,_concrete_record_layout_per_arm_with_symbolic_TTL/RDATA;_source_any_IPv4_or_2001:db8::x,_ports_any;_one_A_record_owned_by_pointer_0xc00c
+    // @harness props=C19,C03:t cfg=KN tier=q to=900 mem=12 unwind=7 opts=nomem covers=5 funcs=dns::Socket::accepts;dns::Socket::process;dns::Socket::start_query;wire::dns::Packet::parse_name;wire::dns::Question::parse;wire::dns::Record::parse;wire::dns::RecordData::parse;dns::eq_names;dns::copy_name bounds=query_name_<1>x<1>y_with_symbolic_label_bytes,_type_A_or_AAAA,_txid/port/timers_symbolic;_response_=_byte_template_with_symbolic_id/flags/QDCOUNT/ANCOUNT/NSCOUNT/ARCOUNT,_question_<1>x<1>y_with_symbolic_label_bytes_and_TYPE,_concrete_record_layout_per_arm_with_symbolic_TTL/RDATA;_source_any_IPv4_or_2001:db8::x,_ports_any;_one_A_record_owned_by_pointer_0xc00c
     #[kani::proof]
     pub(crate) fn dns_process_ptrq_a() {
         let o = process_form(Form { complete: true, check_type: true, ..F_ONE });
@@ -696,7 +696,7 @@ mod v_socket_dns {
         kani::cover!(o.failed && o.rcode == 0 && o.an == 0, "answerless response failed the query");
     }
 
-    // @harness props=C19,C03 cfg=KN tier=q to=900 mem=12 unwind=7 opts=nomem covers=2 funcs=dns::Socket::accepts;dns::Socket::process;dns::Socket::start_query;wire::dns::Packet::parse_name;wire::dns::Question::parse;wire::dns::Record::parse;wire::dns::RecordData::parse;dns::eq_names;dns::copy_name bounds=query_name_<1>x<1>y_with_symbolic_label_bytes,_type_A_or_AAAA,_txid/port/timers_symbolic;_response_=_byte_template_with_symbolic_id/flags/QDCOUNT/ANCOUNT/NSCOUNT/ARCOUNT,_question_<1>x<1>y_with_symbolic_label_bytes_and_TYPE,_concrete_record_layout_per_arm_with_symbolic_TTL/RDATA;_source_any_IPv4_or_2001:db8::x,_ports_any;_one_AAAA_record_owned_by_pointer_0xc00c
+    // @harness props=C19,C03:t cfg=KN tier=q to=900 mem=12 unwind=7 opts=nomem covers=2 funcs=dns::Socket::accepts;dns::Socket::process;dns::Socket::start_query;wire::dns::Packet::parse_name;wire::dns::Question::parse;wire::dns::Record::parse;wire::dns::RecordData::parse;dns::eq_names;dns::copy_name bounds=query_name_<1>x<1>y_with_symbolic_label_bytes,_type_A_or_AAAA,_txid/port/timers_symbolic;_response_=_byte_template_with_symbolic_id/flags/QDCOUNT/ANCOUNT/NSCOUNT/ARCOUNT,_question_<1>x<1>y_with_symbolic_label_bytes_and_TYPE,_concrete_record_layout_per_arm_with_symbolic_TTL/RDATA;_source_any_IPv4_or_2001:db8::x,_ports_any;_one_AAAA_record_owned_by_pointer_0xc00c
     #[kani::proof]
     pub(crate) fn dns_process_ptrq_aaaa() {
         let o = process_form(Form { rd: [Rd::Aaaa, Rd::A], complete: true, check_type: true, ..F_ONE });
@@ -704,7 +704,7 @@ mod v_socket_dns {
         kani::cover!(o.acc && o.id_ok && o.port_ok && o.qr && !o.question_ok && !o.completed && !o.failed, "response rejected: other question");
     }
 
-    // @harness props=C19,C03 cfg=KN tier=q to=900 mem=16 unwind=7 opts=nomem covers=2 funcs=dns::Socket::accepts;dns::Socket::process;dns::Socket::start_query;wire::dns::Packet::parse_name;wire::dns::Question::parse;wire::dns::Record::parse;wire::dns::RecordData::parse;dns::eq_names;dns::copy_name bounds=query_name_<1>x<1>y_with_symbolic_label_bytes,_type_A_or_AAAA,_txid/port/timers_symbolic;_response_=_byte_template_with_symbolic_id/flags/QDCOUNT/ANCOUNT/NSCOUNT/ARCOUNT,_question_<1>x<1>y_with_symbolic_label_bytes_and_TYPE,_concrete_record_layout_per_arm_with_symbolic_TTL/RDATA;_source_any_IPv4_or_2001:db8::x,_ports_any;_the_single_answer_record_(owner_0xc00c)_is_a_CNAME_with_RDATA_<1>x+pointer_to_the_question's_last_label
+    // @harness props=C19,C03:t cfg=KN tier=q to=900 mem=16 unwind=7 opts=nomem covers=2 funcs=dns::Socket::accepts;dns::Socket::process;dns::Socket::start_query;wire::dns::Packet::parse_name;wire::dns::Question::parse;wire::dns::Record::parse;wire::dns::RecordData::parse;dns::eq_names;dns::copy_name bounds=query_name_<1>x<1>y_with_symbolic_label_bytes,_type_A_or_AAAA,_txid/port/timers_symbolic;_response_=_byte_template_with_symbolic_id/flags/QDCOUNT/ANCOUNT/NSCOUNT/ARCOUNT,_question_<1>x<1>y_with_symbolic_label_bytes_and_TYPE,_concrete_record_layout_per_arm_with_symbolic_TTL/RDATA;_source_any_IPv4_or_2001:db8::x,_ports_any;_the_single_answer_record_(owner_0xc00c)_is_a_CNAME_with_RDATA_<1>x+pointer_to_the_question's_last_label
     #[kani::proof]
     pub(crate) fn dns_process_cname_only() {
         let o = process_form(Form { rd: [Rd::CnameLabelPtr(QSUF_OFF), Rd::A], ..F_ONE });
@@ -713,7 +713,7 @@ mod v_socket_dns {
         kani::cover!(o.acc && o.id_ok && o.port_ok && o.question_ok && o.qr && o.an == 2 && !o.failed, "ANCOUNT beyond the message: response dropped");
     }
 
-    // @harness props=C19,C03 cfg=KN tier=q to=900 mem=8 unwind=7 opts=nomem covers=2 funcs=dns::Socket::accepts;dns::Socket::process;dns::Socket::start_query;wire::dns::Packet::parse_name;wire::dns::Question::parse;wire::dns::Record::parse;wire::dns::RecordData::parse;dns::eq_names;dns::copy_name bounds=query_name_<1>x<1>y_with_symbolic_label_bytes,_type_A_or_AAAA,_txid/port/timers_symbolic;_response_=_byte_template_with_symbolic_id/flags/QDCOUNT/ANCOUNT/NSCOUNT/ARCOUNT,_question_<1>x<1>y_with_symbolic_label_bytes_and_TYPE,_concrete_record_layout_per_arm_with_symbolic_TTL/RDATA;_source_any_IPv4_or_2001:db8::x,_ports_any;_arms:_the_single_answer_record_(owner_0xc00c)_is_a_CNAME_with_RDATA_<2>xx<0>_/_an_NS_record
+    // @harness props=C19,C03:t cfg=KN tier=q to=900 mem=8 unwind=7 opts=nomem covers=2 funcs=dns::Socket::accepts;dns::Socket::process;dns::Socket::start_query;wire::dns::Packet::parse_name;wire::dns::Question::parse;wire::dns::Record::parse;wire::dns::RecordData::parse;dns::eq_names;dns::copy_name bounds=query_name_<1>x<1>y_with_symbolic_label_bytes,_type_A_or_AAAA,_txid/port/timers_symbolic;_response_=_byte_template_with_symbolic_id/flags/QDCOUNT/ANCOUNT/NSCOUNT/ARCOUNT,_question_<1>x<1>y_with_symbolic_label_bytes_and_TYPE,_concrete_record_layout_per_arm_with_symbolic_TTL/RDATA;_source_any_IPv4_or_2001:db8::x,_ports_any;_arms:_the_single_answer_record_(owner_0xc00c)_is_a_CNAME_with_RDATA_<2>xx<0>_/_an_NS_record
     #[kani::proof]
     pub(crate) fn dns_process_no_address() {
         let (sel, o) = one_of!(Form { rd: [Rd::CnameInline, Rd::A], ..F_ONE }, Form { rd: [Rd::Other, Rd::A], ..F_ONE });
@@ -722,7 +722,7 @@ mod v_socket_dns {
         kani::cover!(sel == 1 && o.failed && o.rcode == 0 && o.an == 1, "NS answer failed the query");
     }
 
-    // @harness props=C19,C03 cfg=KN tier=q to=900 mem=8 unwind=7 opts=nomem covers=2 funcs=dns::Socket::accepts;dns::Socket::process;dns::Socket::start_query;wire::dns::Packet::parse_name;wire::dns::Question::parse;wire::dns::Record::parse;wire::dns::RecordData::parse;dns::eq_names;dns::copy_name bounds=query_name_<1>x<1>y_with_symbolic_label_bytes,_type_A_or_AAAA,_txid/port/timers_symbolic;_response_=_byte_template_with_symbolic_id/flags/QDCOUNT/ANCOUNT/NSCOUNT/ARCOUNT,_question_<1>x<1>y_with_symbolic_label_bytes_and_TYPE,_concrete_record_layout_per_arm_with_symbolic_TTL/RDATA;_source_any_IPv4_or_2001:db8::x,_ports_any;_one_A_record_whose_owner_is_written_inline_<1>x<1>y<0>_with_symbolic_label_bytes
+    // @harness props=C19,C03:t cfg=KN tier=q to=900 mem=8 unwind=7 opts=nomem covers=2 funcs=dns::Socket::accepts;dns::Socket::process;dns::Socket::start_query;wire::dns::Packet::parse_name;wire::dns::Question::parse;wire::dns::Record::parse;wire::dns::RecordData::parse;dns::eq_names;dns::copy_name bounds=query_name_<1>x<1>y_with_symbolic_label_bytes,_type_A_or_AAAA,_txid/port/timers_symbolic;_response_=_byte_template_with_symbolic_id/flags/QDCOUNT/ANCOUNT/NSCOUNT/ARCOUNT,_question_<1>x<1>y_with_symbolic_label_bytes_and_TYPE,_concrete_record_layout_per_arm_with_symbolic_TTL/RDATA;_source_any_IPv4_or_2001:db8::x,_ports_any;_one_A_record_whose_owner_is_written_inline_<1>x<1>y<0>_with_symbolic_label_bytes
     #[kani::proof]
     pub(crate) fn dns_process_inline() {
         let o = process_form(Form { o: [Owner::Inline, Owner::Inline], complete: true, ..F_ONE });
@@ -730,7 +730,7 @@ mod v_socket_dns {
         kani::cover!(o.failed && o.other_name && o.rcode == 0, "record for another name ignored");
     }
 
-    // @harness props=C19,C03,C07 cfg=KN tier=q to=900 mem=8 unwind=7 opts=nomem covers=3 funcs=dns::Socket::accepts;dns::Socket::process;dns::Socket::start_query;wire::dns::Packet::parse_name;wire::dns::Question::parse;wire::dns::Record::parse;wire::dns::RecordData::parse;dns::eq_names;dns::copy_name bounds=query_name_<1>x<1>y_with_symbolic_label_bytes,_type_A_or_AAAA,_txid/port/timers_symbolic;_response_=_byte_template_with_symbolic_id/flags/QDCOUNT/ANCOUNT/NSCOUNT/ARCOUNT,_question_<1>x<1>y_with_symbolic_label_bytes_and_TYPE,_concrete_record_layout_per_arm_with_symbolic_TTL/RDATA;_source_any_IPv4_or_2001:db8::x,_ports_any;_arms:_one_A_record_whose_owner_is_<1>x+pointer_to_the_question's_last_label_/_<1>x+pointer_to_itself
+    // @harness props=C19,C03:t,C07 cfg=KN tier=q to=900 mem=8 unwind=7 opts=nomem covers=3 funcs=dns::Socket::accepts;dns::Socket::process;dns::Socket::start_query;wire::dns::Packet::parse_name;wire::dns::Question::parse;wire::dns::Record::parse;wire::dns::RecordData::parse;dns::eq_names;dns::copy_name bounds=query_name_<1>x<1>y_with_symbolic_label_bytes,_type_A_or_AAAA,_txid/port/timers_symbolic;_response_=_byte_template_with_symbolic_id/flags/QDCOUNT/ANCOUNT/NSCOUNT/ARCOUNT,_question_<1>x<1>y_with_symbolic_label_bytes_and_TYPE,_concrete_record_layout_per_arm_with_symbolic_TTL/RDATA;_source_any_IPv4_or_2001:db8::x,_ports_any;_arms:_one_A_record_whose_owner_is_<1>x+pointer_to_the_question's_last_label_/_<1>x+pointer_to_itself
     #[kani::proof]
     pub(crate) fn dns_process_labelptr() {
         let (sel, o) = one_of!(Form { o: [Owner::LabelPtr(QSUF_OFF), Owner::Inline], complete: true, ..F_ONE }, Form { o: [Owner::LabelPtr(SELF), Owner::Inline], ..F_ONE });
@@ -742,7 +742,7 @@ mod v_socket_dns {
         kani::cover!(sel == 1 && o.acc && o.id_ok && o.port_ok && o.question_ok && o.qr && o.an == 1 && !o.failed, "label + pointer loop: response dropped");
     }
 
-    // @harness props=C19,C03,C07 cfg=KN tier=q to=900 mem=8 unwind=7 opts=nomem covers=2 funcs=dns::Socket::accepts;dns::Socket::process;dns::Socket::start_query;wire::dns::Packet::parse_name;wire::dns::Question::parse;wire::dns::Record::parse;wire::dns::RecordData::parse;dns::eq_names;dns::copy_name bounds=query_name_<1>x<1>y_with_symbolic_label_bytes,_type_A_or_AAAA,_txid/port/timers_symbolic;_response_=_byte_template_with_symbolic_id/flags/QDCOUNT/ANCOUNT/NSCOUNT/ARCOUNT,_question_<1>x<1>y_with_symbolic_label_bytes_and_TYPE,_concrete_record_layout_per_arm_with_symbolic_TTL/RDATA;_source_any_IPv4_or_2001:db8::x,_ports_any;_arms:_one_A_record_whose_owner_is_a_compression_pointer_to_itself_/_to_the_question's_last_label
+    // @harness props=C19,C03:t,C07 cfg=KN tier=q to=900 mem=8 unwind=7 opts=nomem covers=2 funcs=dns::Socket::accepts;dns::Socket::process;dns::Socket::start_query;wire::dns::Packet::parse_name;wire::dns::Question::parse;wire::dns::Record::parse;wire::dns::RecordData::parse;dns::eq_names;dns::copy_name bounds=query_name_<1>x<1>y_with_symbolic_label_bytes,_type_A_or_AAAA,_txid/port/timers_symbolic;_response_=_byte_template_with_symbolic_id/flags/QDCOUNT/ANCOUNT/NSCOUNT/ARCOUNT,_question_<1>x<1>y_with_symbolic_label_bytes_and_TYPE,_concrete_record_layout_per_arm_with_symbolic_TTL/RDATA;_source_any_IPv4_or_2001:db8::x,_ports_any;_arms:_one_A_record_whose_owner_is_a_compression_pointer_to_itself_/_to_the_question's_last_label
     #[kani::proof]
     pub(crate) fn dns_process_ptr_self_suffix() {
         let (sel, o) = one_of!(Form { o: [Owner::Ptr(SELF), Owner::Inline], ..F_ONE }, Form { o: [Owner::Ptr(QSUF_OFF), Owner::Inline], ..F_ONE });
@@ -753,7 +753,7 @@ mod v_socket_dns {
         kani::cover!(sel == 1 && o.failed && o.rcode == 0 && o.other_name, "pointer to a suffix of the question name ignored");
     }
 
-    // @harness props=C19,C03,C07 cfg=KN tier=q to=900 mem=8 unwind=7 opts=nomem covers=2 funcs=dns::Socket::accepts;dns::Socket::process;dns::Socket::start_query;wire::dns::Packet::parse_name;wire::dns::Question::parse;wire::dns::Record::parse;wire::dns::RecordData::parse;dns::eq_names;dns::copy_name bounds=query_name_<1>x<1>y_with_symbolic_label_bytes,_type_A_or_AAAA,_txid/port/timers_symbolic;_response_=_byte_template_with_symbolic_id/flags/QDCOUNT/ANCOUNT/NSCOUNT/ARCOUNT,_question_<1>x<1>y_with_symbolic_label_bytes_and_TYPE,_concrete_record_layout_per_arm_with_symbolic_TTL/RDATA;_source_any_IPv4_or_2001:db8::x,_ports_any;_one_A_record_whose_owner_is_a_compression_pointer_to_the_question's_root_octet
+    // @harness props=C19,C03:t,C07 cfg=KN tier=q to=900 mem=8 unwind=7 opts=nomem covers=2 funcs=dns::Socket::accepts;dns::Socket::process;dns::Socket::start_query;wire::dns::Packet::parse_name;wire::dns::Question::parse;wire::dns::Record::parse;wire::dns::RecordData::parse;dns::eq_names;dns::copy_name bounds=query_name_<1>x<1>y_with_symbolic_label_bytes,_type_A_or_AAAA,_txid/port/timers_symbolic;_response_=_byte_template_with_symbolic_id/flags/QDCOUNT/ANCOUNT/NSCOUNT/ARCOUNT,_question_<1>x<1>y_with_symbolic_label_bytes_and_TYPE,_concrete_record_layout_per_arm_with_symbolic_TTL/RDATA;_source_any_IPv4_or_2001:db8::x,_ports_any;_one_A_record_whose_owner_is_a_compression_pointer_to_the_question's_root_octet
     #[kani::proof]
     pub(crate) fn dns_process_ptr_root() {
         let o = process_form(Form { o: [Owner::Ptr(QROOT_OFF), Owner::Inline], ..F_ONE });
@@ -762,7 +762,7 @@ mod v_socket_dns {
         kani::cover!(o.failed && o.rcode == 3, "NXDomain failed the query");
     }
 
-    // @harness props=C19,C03,C07 cfg=KN tier=t to=3600 mem=12 unwind=12 opts=nomem covers=2 funcs=dns::Socket::accepts;dns::Socket::process;dns::Socket::start_query;wire::dns::Packet::parse_name;wire::dns::Question::parse;wire::dns::Record::parse;wire::dns::RecordData::parse;dns::eq_names;dns::copy_name bounds=query_name_<1>x<1>y_with_symbolic_label_bytes,_type_A_or_AAAA,_txid/port/timers_symbolic;_response_=_byte_template_with_symbolic_id/flags/QDCOUNT/ANCOUNT/NSCOUNT/ARCOUNT,_question_<1>x<1>y_with_symbolic_label_bytes_and_TYPE,_concrete_record_layout_per_arm_with_symbolic_TTL/RDATA;_source_any_IPv4_or_2001:db8::x,_ports_any;_one_A_record_whose_owner_is_a_compression_pointer_forward_into_its_own_RDATA_(4_symbolic_bytes_read_as_a_name;_pointer_chains_through_RDATA,_TTL_and_the_header_counts_need_unwind_12;_measured_with_unwind_7:_344_s_and_a_failing_unwinding_assertion,_not_run_to_completion_with_12)
+    // @harness props=C19,C03:t,C07 cfg=KN tier=t to=3600 mem=12 unwind=12 opts=nomem covers=2 funcs=dns::Socket::accepts;dns::Socket::process;dns::Socket::start_query;wire::dns::Packet::parse_name;wire::dns::Question::parse;wire::dns::Record::parse;wire::dns::RecordData::parse;dns::eq_names;dns::copy_name bounds=query_name_<1>x<1>y_with_symbolic_label_bytes,_type_A_or_AAAA,_txid/port/timers_symbolic;_response_=_byte_template_with_symbolic_id/flags/QDCOUNT/ANCOUNT/NSCOUNT/ARCOUNT,_question_<1>x<1>y_with_symbolic_label_bytes_and_TYPE,_concrete_record_layout_per_arm_with_symbolic_TTL/RDATA;_source_any_IPv4_or_2001:db8::x,_ports_any;_one_A_record_whose_owner_is_a_compression_pointer_forward_into_its_own_RDATA_(4_symbolic_bytes_read_as_a_name;_pointer_chains_through_RDATA,_TTL_and_the_header_counts_need_unwind_12;_measured_with_unwind_7:_344_s_and_a_failing_unwinding_assertion,_not_run_to_completion_with_12)
     #[kani::proof]
     pub(crate) fn dns_process_ptr_forward() {
         let o = process_form(Form { o: [Owner::Ptr(ANS_OFF + 12), Owner::Inline], ..F_ONE });
@@ -770,7 +770,7 @@ mod v_socket_dns {
         kani::cover!(o.acc && o.id_ok && o.port_ok && o.question_ok && o.qr && o.an == 1 && !o.failed && !o.completed, "forward pointer into malformed RDATA: response dropped");
     }
 
-    // @harness props=C19,C03,C07 cfg=KN tier=q to=900 mem=10 unwind=7 opts=nomem covers=2 funcs=dns::Socket::accepts;dns::Socket::process;dns::Socket::start_query;wire::dns::Packet::parse_name;wire::dns::Question::parse;wire::dns::Record::parse;wire::dns::RecordData::parse;dns::eq_names;dns::copy_name bounds=query_name_<1>x<1>y_with_symbolic_label_bytes,_type_A_or_AAAA,_txid/port/timers_symbolic;_response_=_byte_template_with_symbolic_id/flags/QDCOUNT/ANCOUNT/NSCOUNT/ARCOUNT,_question_<1>x<1>y_with_symbolic_label_bytes_and_TYPE,_concrete_record_layout_per_arm_with_symbolic_TTL/RDATA;_source_any_IPv4_or_2001:db8::x,_ports_any;_one_A_record_whose_owner_is_a_compression_pointer_to_offset_0_(the_symbolic_message_id_read_as_a_name)
+    // @harness props=C19,C03:t,C07 cfg=KN tier=q to=900 mem=10 unwind=7 opts=nomem covers=2 funcs=dns::Socket::accepts;dns::Socket::process;dns::Socket::start_query;wire::dns::Packet::parse_name;wire::dns::Question::parse;wire::dns::Record::parse;wire::dns::RecordData::parse;dns::eq_names;dns::copy_name bounds=query_name_<1>x<1>y_with_symbolic_label_bytes,_type_A_or_AAAA,_txid/port/timers_symbolic;_response_=_byte_template_with_symbolic_id/flags/QDCOUNT/ANCOUNT/NSCOUNT/ARCOUNT,_question_<1>x<1>y_with_symbolic_label_bytes_and_TYPE,_concrete_record_layout_per_arm_with_symbolic_TTL/RDATA;_source_any_IPv4_or_2001:db8::x,_ports_any;_one_A_record_whose_owner_is_a_compression_pointer_to_offset_0_(the_symbolic_message_id_read_as_a_name)
     #[kani::proof]
     pub(crate) fn dns_process_ptr_header() {
         let o = process_form(Form { o: [Owner::Ptr(0), Owner::Inline], ..F_ONE });
@@ -787,35 +787,35 @@ mod v_socket_dns {
         kani::cover!(sel == 1 && o.acc && o.id_ok && o.port_ok && o.question_ok && o.qr && o.an == 1 && !o.failed, "pointer to 0x3fff: response dropped");
     }
 
-    // @harness props=C19,C03 cfg=KN tier=q to=900 mem=8 unwind=7 opts=nomem covers=1 funcs=dns::Socket::accepts;dns::Socket::process;dns::Socket::start_query;wire::dns::Packet::parse_name;wire::dns::Question::parse;wire::dns::Record::parse;wire::dns::RecordData::parse;dns::eq_names;dns::copy_name bounds=query_name_<1>x<1>y_with_symbolic_label_bytes,_type_A_or_AAAA,_txid/port/timers_symbolic;_response_=_byte_template_with_symbolic_id/flags/QDCOUNT/ANCOUNT/NSCOUNT/ARCOUNT,_question_<1>x<1>y_with_symbolic_label_bytes_and_TYPE,_concrete_record_layout_per_arm_with_symbolic_TTL/RDATA;_source_any_IPv4_or_2001:db8::x,_ports_any;_CNAME_owned_by_0xc00c_(RDATA_<1>x+pointer_to_the_question's_last_label)_then_an_A_record_owned_by_a_pointer_to_that_RDATA
+    // @harness props=C19,C03:t cfg=KN tier=q to=900 mem=8 unwind=7 opts=nomem covers=1 funcs=dns::Socket::accepts;dns::Socket::process;dns::Socket::start_query;wire::dns::Packet::parse_name;wire::dns::Question::parse;wire::dns::Record::parse;wire::dns::RecordData::parse;dns::eq_names;dns::copy_name bounds=query_name_<1>x<1>y_with_symbolic_label_bytes,_type_A_or_AAAA,_txid/port/timers_symbolic;_response_=_byte_template_with_symbolic_id/flags/QDCOUNT/ANCOUNT/NSCOUNT/ARCOUNT,_question_<1>x<1>y_with_symbolic_label_bytes_and_TYPE,_concrete_record_layout_per_arm_with_symbolic_TTL/RDATA;_source_any_IPv4_or_2001:db8::x,_ports_any;_CNAME_owned_by_0xc00c_(RDATA_<1>x+pointer_to_the_question's_last_label)_then_an_A_record_owned_by_a_pointer_to_that_RDATA
     #[kani::proof]
     pub(crate) fn dns_process_cname_then() {
         let o = process_form(Form { o: [Owner::Ptr(QN_OFF), Owner::Ptr(RD1)], rd: [Rd::CnameLabelPtr(QSUF_OFF), Rd::A], ..F_TWO });
         kani::cover!(o.completed && o.cname_followed && o.naddr == 1, "CNAME followed");
     }
 
-    // @harness props=C19,C03 cfg=KN tier=q to=900 mem=8 unwind=7 opts=nomem covers=1 funcs=dns::Socket::accepts;dns::Socket::process;dns::Socket::start_query;wire::dns::Packet::parse_name;wire::dns::Question::parse;wire::dns::Record::parse;wire::dns::RecordData::parse;dns::eq_names;dns::copy_name bounds=query_name_<1>x<1>y_with_symbolic_label_bytes,_type_A_or_AAAA,_txid/port/timers_symbolic;_response_=_byte_template_with_symbolic_id/flags/QDCOUNT/ANCOUNT/NSCOUNT/ARCOUNT,_question_<1>x<1>y_with_symbolic_label_bytes_and_TYPE,_concrete_record_layout_per_arm_with_symbolic_TTL/RDATA;_source_any_IPv4_or_2001:db8::x,_ports_any;_CNAME_owned_by_0xc00c_then_an_A_record_owned_by_0xc00c_(the_original_name)
+    // @harness props=C19,C03:t cfg=KN tier=q to=900 mem=8 unwind=7 opts=nomem covers=1 funcs=dns::Socket::accepts;dns::Socket::process;dns::Socket::start_query;wire::dns::Packet::parse_name;wire::dns::Question::parse;wire::dns::Record::parse;wire::dns::RecordData::parse;dns::eq_names;dns::copy_name bounds=query_name_<1>x<1>y_with_symbolic_label_bytes,_type_A_or_AAAA,_txid/port/timers_symbolic;_response_=_byte_template_with_symbolic_id/flags/QDCOUNT/ANCOUNT/NSCOUNT/ARCOUNT,_question_<1>x<1>y_with_symbolic_label_bytes_and_TYPE,_concrete_record_layout_per_arm_with_symbolic_TTL/RDATA;_source_any_IPv4_or_2001:db8::x,_ports_any;_CNAME_owned_by_0xc00c_then_an_A_record_owned_by_0xc00c_(the_original_name)
     #[kani::proof]
     pub(crate) fn dns_process_cname_then_original() {
         let o = process_form(Form { o: [Owner::Ptr(QN_OFF), Owner::Ptr(QN_OFF)], rd: [Rd::CnameLabelPtr(QSUF_OFF), Rd::A], ..F_TWO });
         kani::cover!(o.failed && o.cname_followed && o.other_name && o.rcode == 0, "record for the original name after a CNAME ignored");
     }
 
-    // @harness props=C19,C03 cfg=KN tier=q to=900 mem=8 unwind=7 opts=nomem covers=1 funcs=dns::Socket::accepts;dns::Socket::process;dns::Socket::start_query;wire::dns::Packet::parse_name;wire::dns::Question::parse;wire::dns::Record::parse;wire::dns::RecordData::parse;dns::eq_names;dns::copy_name bounds=query_name_<1>x<1>y_with_symbolic_label_bytes,_type_A_or_AAAA,_txid/port/timers_symbolic;_response_=_byte_template_with_symbolic_id/flags/QDCOUNT/ANCOUNT/NSCOUNT/ARCOUNT,_question_<1>x<1>y_with_symbolic_label_bytes_and_TYPE,_concrete_record_layout_per_arm_with_symbolic_TTL/RDATA;_source_any_IPv4_or_2001:db8::x,_ports_any;_CNAME_owned_by_0xc00c_with_RDATA_<2>xx<0>_then_an_A_record_with_inline_owner_<1>x<1>y<0>
+    // @harness props=C19,C03:t cfg=KN tier=q to=900 mem=8 unwind=7 opts=nomem covers=1 funcs=dns::Socket::accepts;dns::Socket::process;dns::Socket::start_query;wire::dns::Packet::parse_name;wire::dns::Question::parse;wire::dns::Record::parse;wire::dns::RecordData::parse;dns::eq_names;dns::copy_name bounds=query_name_<1>x<1>y_with_symbolic_label_bytes,_type_A_or_AAAA,_txid/port/timers_symbolic;_response_=_byte_template_with_symbolic_id/flags/QDCOUNT/ANCOUNT/NSCOUNT/ARCOUNT,_question_<1>x<1>y_with_symbolic_label_bytes_and_TYPE,_concrete_record_layout_per_arm_with_symbolic_TTL/RDATA;_source_any_IPv4_or_2001:db8::x,_ports_any;_CNAME_owned_by_0xc00c_with_RDATA_<2>xx<0>_then_an_A_record_with_inline_owner_<1>x<1>y<0>
     #[kani::proof]
     pub(crate) fn dns_process_cname_inline() {
         let o = process_form(Form { o: [Owner::Ptr(QN_OFF), Owner::Inline], rd: [Rd::CnameInline, Rd::A], ..F_TWO });
         kani::cover!(o.failed && o.cname_followed && o.rcode == 0, "address for a name other than the CNAME target ignored");
     }
 
-    // @harness props=C19,C03,C07 cfg=KN tier=q to=900 mem=8 unwind=7 opts=nomem covers=1 funcs=dns::Socket::accepts;dns::Socket::process;dns::Socket::start_query;wire::dns::Packet::parse_name;wire::dns::Question::parse;wire::dns::Record::parse;wire::dns::RecordData::parse;dns::eq_names;dns::copy_name bounds=query_name_<1>x<1>y_with_symbolic_label_bytes,_type_A_or_AAAA,_txid/port/timers_symbolic;_response_=_byte_template_with_symbolic_id/flags/QDCOUNT/ANCOUNT/NSCOUNT/ARCOUNT,_question_<1>x<1>y_with_symbolic_label_bytes_and_TYPE,_concrete_record_layout_per_arm_with_symbolic_TTL/RDATA;_source_any_IPv4_or_2001:db8::x,_ports_any;_CNAME_owned_by_0xc00c_with_RDATA_<1>x+pointer_to_the_question_name_(three_labels)_then_an_A_record_owned_by_a_pointer_to_that_RDATA
+    // @harness props=C19,C03:t,C07 cfg=KN tier=q to=900 mem=8 unwind=7 opts=nomem covers=1 funcs=dns::Socket::accepts;dns::Socket::process;dns::Socket::start_query;wire::dns::Packet::parse_name;wire::dns::Question::parse;wire::dns::Record::parse;wire::dns::RecordData::parse;dns::eq_names;dns::copy_name bounds=query_name_<1>x<1>y_with_symbolic_label_bytes,_type_A_or_AAAA,_txid/port/timers_symbolic;_response_=_byte_template_with_symbolic_id/flags/QDCOUNT/ANCOUNT/NSCOUNT/ARCOUNT,_question_<1>x<1>y_with_symbolic_label_bytes_and_TYPE,_concrete_record_layout_per_arm_with_symbolic_TTL/RDATA;_source_any_IPv4_or_2001:db8::x,_ports_any;_CNAME_owned_by_0xc00c_with_RDATA_<1>x+pointer_to_the_question_name_(three_labels)_then_an_A_record_owned_by_a_pointer_to_that_RDATA
     #[kani::proof]
     pub(crate) fn dns_process_cname_long() {
         let o = process_form(Form { o: [Owner::Ptr(QN_OFF), Owner::Ptr(RD1)], rd: [Rd::CnameLabelPtr(QN_OFF), Rd::A], ..F_TWO });
         kani::cover!(o.completed && o.cname_followed, "CNAME to a three-label name followed");
     }
 
-    // @harness props=C19,C03,C07 cfg=KN tier=q to=900 mem=16 unwind=7 opts=nomem covers=1 funcs=dns::Socket::accepts;dns::Socket::process;dns::Socket::start_query;wire::dns::Packet::parse_name;wire::dns::Question::parse;wire::dns::Record::parse;wire::dns::RecordData::parse;dns::eq_names;dns::copy_name bounds=query_name_<1>x<1>y_with_symbolic_label_bytes,_type_A_or_AAAA,_txid/port/timers_symbolic;_response_=_byte_template_with_symbolic_id/flags/QDCOUNT/ANCOUNT/NSCOUNT/ARCOUNT,_question_<1>x<1>y_with_symbolic_label_bytes_and_TYPE,_concrete_record_layout_per_arm_with_symbolic_TTL/RDATA;_source_any_IPv4_or_2001:db8::x,_ports_any;_CNAME_owned_by_0xc00c_with_RDATA_<1>x+pointer_to_itself_then_an_A_record_owned_by_a_pointer_to_that_RDATA
+    // @harness props=C19,C03:t,C07 cfg=KN tier=q to=900 mem=16 unwind=7 opts=nomem covers=1 funcs=dns::Socket::accepts;dns::Socket::process;dns::Socket::start_query;wire::dns::Packet::parse_name;wire::dns::Question::parse;wire::dns::Record::parse;wire::dns::RecordData::parse;dns::eq_names;dns::copy_name bounds=query_name_<1>x<1>y_with_symbolic_label_bytes,_type_A_or_AAAA,_txid/port/timers_symbolic;_response_=_byte_template_with_symbolic_id/flags/QDCOUNT/ANCOUNT/NSCOUNT/ARCOUNT,_question_<1>x<1>y_with_symbolic_label_bytes_and_TYPE,_concrete_record_layout_per_arm_with_symbolic_TTL/RDATA;_source_any_IPv4_or_2001:db8::x,_ports_any;_CNAME_owned_by_0xc00c_with_RDATA_<1>x+pointer_to_itself_then_an_A_record_owned_by_a_pointer_to_that_RDATA
     #[kani::proof]
     pub(crate) fn dns_process_cname_loop() {
         let o = process_form(Form { o: [Owner::Ptr(QN_OFF), Owner::Ptr(RD1)], rd: [Rd::CnameLabelPtr(SELF), Rd::A], ..F_TWO });
@@ -823,7 +823,7 @@ mod v_socket_dns {
         kani::cover!(o.acc && o.id_ok && o.port_ok && o.question_ok && o.qr && o.an == 2 && !o.completed && !o.failed, "CNAME pointing at itself: response dropped");
     }
 
-    // @harness props=C19,C03 cfg=KN tier=q to=900 mem=8 unwind=7 opts=nomem covers=2 funcs=dns::Socket::accepts;dns::Socket::process;dns::Socket::start_query;wire::dns::Packet::parse_name;wire::dns::Question::parse;wire::dns::Record::parse;wire::dns::RecordData::parse;dns::eq_names;dns::copy_name bounds=query_name_<1>x<1>y_with_symbolic_label_bytes,_type_A_or_AAAA,_txid/port/timers_symbolic;_response_=_byte_template_with_symbolic_id/flags/QDCOUNT/ANCOUNT/NSCOUNT/ARCOUNT,_question_<1>x<1>y_with_symbolic_label_bytes_and_TYPE,_concrete_record_layout_per_arm_with_symbolic_TTL/RDATA;_source_any_IPv4_or_2001:db8::x,_ports_any;_two_A_records_owned_by_0xc00c
+    // @harness props=C19,C03:t cfg=KN tier=q to=900 mem=8 unwind=7 opts=nomem covers=2 funcs=dns::Socket::accepts;dns::Socket::process;dns::Socket::start_query;wire::dns::Packet::parse_name;wire::dns::Question::parse;wire::dns::Record::parse;wire::dns::RecordData::parse;dns::eq_names;dns::copy_name bounds=query_name_<1>x<1>y_with_symbolic_label_bytes,_type_A_or_AAAA,_txid/port/timers_symbolic;_response_=_byte_template_with_symbolic_id/flags/QDCOUNT/ANCOUNT/NSCOUNT/ARCOUNT,_question_<1>x<1>y_with_symbolic_label_bytes_and_TYPE,_concrete_record_layout_per_arm_with_symbolic_TTL/RDATA;_source_any_IPv4_or_2001:db8::x,_ports_any;_two_A_records_owned_by_0xc00c
     #[kani::proof]
     pub(crate) fn dns_process_two_a() {
         let o = process_form(F_TWO);
@@ -831,21 +831,21 @@ mod v_socket_dns {
         kani::cover!(o.completed && o.an == 1, "record beyond ANCOUNT not used");
     }
 
-    // @harness props=C19,C03 cfg=KN tier=q to=900 mem=8 unwind=7 opts=nomem covers=1 funcs=dns::Socket::accepts;dns::Socket::process;dns::Socket::start_query;wire::dns::Packet::parse_name;wire::dns::Question::parse;wire::dns::Record::parse;wire::dns::RecordData::parse;dns::eq_names;dns::copy_name bounds=query_name_<1>x<1>y_with_symbolic_label_bytes,_type_A_or_AAAA,_txid/port/timers_symbolic;_response_=_byte_template_with_symbolic_id/flags/QDCOUNT/ANCOUNT/NSCOUNT/ARCOUNT,_question_<1>x<1>y_with_symbolic_label_bytes_and_TYPE,_concrete_record_layout_per_arm_with_symbolic_TTL/RDATA;_source_any_IPv4_or_2001:db8::x,_ports_any;_A_record_owned_by_0xc00c_then_A_record_with_inline_owner_<1>x<1>y<0>
+    // @harness props=C19,C03:t cfg=KN tier=q to=900 mem=8 unwind=7 opts=nomem covers=1 funcs=dns::Socket::accepts;dns::Socket::process;dns::Socket::start_query;wire::dns::Packet::parse_name;wire::dns::Question::parse;wire::dns::Record::parse;wire::dns::RecordData::parse;dns::eq_names;dns::copy_name bounds=query_name_<1>x<1>y_with_symbolic_label_bytes,_type_A_or_AAAA,_txid/port/timers_symbolic;_response_=_byte_template_with_symbolic_id/flags/QDCOUNT/ANCOUNT/NSCOUNT/ARCOUNT,_question_<1>x<1>y_with_symbolic_label_bytes_and_TYPE,_concrete_record_layout_per_arm_with_symbolic_TTL/RDATA;_source_any_IPv4_or_2001:db8::x,_ports_any;_A_record_owned_by_0xc00c_then_A_record_with_inline_owner_<1>x<1>y<0>
     #[kani::proof]
     pub(crate) fn dns_process_two_other_name() {
         let o = process_form(Form { o: [Owner::Ptr(QN_OFF), Owner::Inline], ..F_TWO });
         kani::cover!(o.completed && o.naddr == 1 && o.other_name && o.an == 2, "second record for another name ignored");
     }
 
-    // @harness props=C19,C03 cfg=KN tier=q to=900 mem=8 unwind=7 opts=nomem covers=1 funcs=dns::Socket::accepts;dns::Socket::process;dns::Socket::start_query;wire::dns::Packet::parse_name;wire::dns::Question::parse;wire::dns::Record::parse;wire::dns::RecordData::parse;dns::eq_names;dns::copy_name bounds=query_name_<1>x<1>y_with_symbolic_label_bytes,_type_A_or_AAAA,_txid/port/timers_symbolic;_response_=_byte_template_with_symbolic_id/flags/QDCOUNT/ANCOUNT/NSCOUNT/ARCOUNT,_question_<1>x<1>y_with_symbolic_label_bytes_and_TYPE,_concrete_record_layout_per_arm_with_symbolic_TTL/RDATA;_source_any_IPv4_or_2001:db8::x,_ports_any;_NS_record_then_A_record,_both_owned_by_0xc00c
+    // @harness props=C19,C03:t cfg=KN tier=q to=900 mem=8 unwind=7 opts=nomem covers=1 funcs=dns::Socket::accepts;dns::Socket::process;dns::Socket::start_query;wire::dns::Packet::parse_name;wire::dns::Question::parse;wire::dns::Record::parse;wire::dns::RecordData::parse;dns::eq_names;dns::copy_name bounds=query_name_<1>x<1>y_with_symbolic_label_bytes,_type_A_or_AAAA,_txid/port/timers_symbolic;_response_=_byte_template_with_symbolic_id/flags/QDCOUNT/ANCOUNT/NSCOUNT/ARCOUNT,_question_<1>x<1>y_with_symbolic_label_bytes_and_TYPE,_concrete_record_layout_per_arm_with_symbolic_TTL/RDATA;_source_any_IPv4_or_2001:db8::x,_ports_any;_NS_record_then_A_record,_both_owned_by_0xc00c
     #[kani::proof]
     pub(crate) fn dns_process_ns_then_a() {
         let o = process_form(Form { rd: [Rd::Other, Rd::A], ..F_TWO });
         kani::cover!(o.completed && o.naddr == 1, "NS record skipped, address taken");
     }
 
-    // @harness props=C19,C03 cfg=KN tier=t to=900 mem=10 unwind=7 opts=nomem covers=2 funcs=dns::Socket::accepts;dns::Socket::process;dns::Socket::start_query;wire::dns::Packet::parse_name;wire::dns::Question::parse;wire::dns::Record::parse;wire::dns::RecordData::parse;dns::eq_names;dns::copy_name bounds=query_name_<1>x<1>y_with_symbolic_label_bytes,_type_A_or_AAAA,_txid/port/timers_symbolic;_response_=_byte_template_with_symbolic_id/flags/QDCOUNT/ANCOUNT/NSCOUNT/ARCOUNT,_question_<1>x<1>y_with_symbolic_label_bytes_and_TYPE,_concrete_record_layout_per_arm_with_symbolic_TTL/RDATA;_source_any_IPv4_or_2001:db8::x,_ports_any;_arms:_two_answer_records_owned_by_0xc00c:_A+AAAA_/_AAAA+AAAA
+    // @harness props=C19,C03:t cfg=KN tier=t to=900 mem=10 unwind=7 opts=nomem covers=2 funcs=dns::Socket::accepts;dns::Socket::process;dns::Socket::start_query;wire::dns::Packet::parse_name;wire::dns::Question::parse;wire::dns::Record::parse;wire::dns::RecordData::parse;dns::eq_names;dns::copy_name bounds=query_name_<1>x<1>y_with_symbolic_label_bytes,_type_A_or_AAAA,_txid/port/timers_symbolic;_response_=_byte_template_with_symbolic_id/flags/QDCOUNT/ANCOUNT/NSCOUNT/ARCOUNT,_question_<1>x<1>y_with_symbolic_label_bytes_and_TYPE,_concrete_record_layout_per_arm_with_symbolic_TTL/RDATA;_source_any_IPv4_or_2001:db8::x,_ports_any;_arms:_two_answer_records_owned_by_0xc00c:_A+AAAA_/_AAAA+AAAA
     #[kani::proof]
     pub(crate) fn dns_process_two_records_mixed() {
         let (sel, o) = one_of!(Form { rd: [Rd::A, Rd::Aaaa], ..F_TWO }, Form { rd: [Rd::Aaaa, Rd::Aaaa], ..F_TWO });
@@ -853,7 +853,7 @@ mod v_socket_dns {
         kani::cover!(sel == 1 && o.completed && o.naddr == 2, "query completed with two IPv6 addresses");
     }
 
-    // @harness props=C19,C03 cfg=KN tier=q to=900 mem=8 unwind=7 opts=nomem covers=2 funcs=dns::Socket::accepts;dns::Socket::process;dns::Socket::start_query;wire::dns::Packet::parse_name;wire::dns::Question::parse;wire::dns::Record::parse;wire::dns::RecordData::parse;dns::eq_names;dns::copy_name bounds=query_name_<1>x<1>y_with_symbolic_label_bytes,_type_A_or_AAAA,_txid/port/timers_symbolic;_response_=_byte_template_with_symbolic_id/flags/QDCOUNT/ANCOUNT/NSCOUNT/ARCOUNT,_question_with_symbolic_label_bytes_and_TYPE,_concrete_record_layout_per_arm_with_symbolic_TTL/RDATA;_source_any_IPv4_or_2001:db8::x,_ports_any;_arms:_the_response's_question_name_is_<1>x<0>_(strict_prefix_of_the_queried_label_sequence)_/_<1>x<1>y<1>z<0>_(strict_extension),_followed_by_an_A_record_owned_by_0xc00c
+    // @harness props=C19,C03:t cfg=KN tier=q to=900 mem=8 unwind=7 opts=nomem covers=2 funcs=dns::Socket::accepts;dns::Socket::process;dns::Socket::start_query;wire::dns::Packet::parse_name;wire::dns::Question::parse;wire::dns::Record::parse;wire::dns::RecordData::parse;dns::eq_names;dns::copy_name bounds=query_name_<1>x<1>y_with_symbolic_label_bytes,_type_A_or_AAAA,_txid/port/timers_symbolic;_response_=_byte_template_with_symbolic_id/flags/QDCOUNT/ANCOUNT/NSCOUNT/ARCOUNT,_question_with_symbolic_label_bytes_and_TYPE,_concrete_record_layout_per_arm_with_symbolic_TTL/RDATA;_source_any_IPv4_or_2001:db8::x,_ports_any;_arms:_the_response's_question_name_is_<1>x<0>_(strict_prefix_of_the_queried_label_sequence)_/_<1>x<1>y<1>z<0>_(strict_extension),_followed_by_an_A_record_owned_by_0xc00c
     #[kani::proof]
     pub(crate) fn dns_process_question_prefix_ext() {
         let (sel, o) = one_of!(Form { qshape: 1, ..F_ONE }, Form { qshape: 2, ..F_ONE });
@@ -862,7 +862,7 @@ mod v_socket_dns {
         kani::cover!(sel == 1 && o.acc && o.id_ok && o.port_ok && o.qr && o.an == 1 && !o.failed, "question naming an extension of the queried name: response dropped");
     }
 
-    // @harness props=C19,C03 cfg=KN tier=q to=900 mem=8 unwind=7 opts=nomem covers=2 funcs=dns::Socket::accepts;dns::Socket::process;dns::Socket::start_query;wire::dns::Packet::parse_name;wire::dns::Question::parse;wire::dns::Record::parse;wire::dns::RecordData::parse;dns::eq_names;dns::copy_name bounds=query_name_<1>x<1>y_with_symbolic_label_bytes,_type_A_or_AAAA,_txid/port/timers_symbolic;_response_=_byte_template_with_symbolic_id/flags/QDCOUNT/ANCOUNT/NSCOUNT/ARCOUNT,_question_with_symbolic_label_bytes_and_TYPE,_concrete_record_layout_per_arm_with_symbolic_TTL/RDATA;_source_any_IPv4_or_2001:db8::x,_ports_any;_arms:_one_A_record_whose_owner_is_<1>x+pointer_to_the_question's_root_octet_(strict_prefix_of_the_queried_label_sequence)_/_inline_<1>x<1>y<1>z<0>_(strict_extension)
+    // @harness props=C19,C03:t cfg=KN tier=q to=900 mem=8 unwind=7 opts=nomem covers=2 funcs=dns::Socket::accepts;dns::Socket::process;dns::Socket::start_query;wire::dns::Packet::parse_name;wire::dns::Question::parse;wire::dns::Record::parse;wire::dns::RecordData::parse;dns::eq_names;dns::copy_name bounds=query_name_<1>x<1>y_with_symbolic_label_bytes,_type_A_or_AAAA,_txid/port/timers_symbolic;_response_=_byte_template_with_symbolic_id/flags/QDCOUNT/ANCOUNT/NSCOUNT/ARCOUNT,_question_with_symbolic_label_bytes_and_TYPE,_concrete_record_layout_per_arm_with_symbolic_TTL/RDATA;_source_any_IPv4_or_2001:db8::x,_ports_any;_arms:_one_A_record_whose_owner_is_<1>x+pointer_to_the_question's_root_octet_(strict_prefix_of_the_queried_label_sequence)_/_inline_<1>x<1>y<1>z<0>_(strict_extension)
     #[kani::proof]
     pub(crate) fn dns_process_owner_prefix_ext() {
         let (sel, o) = one_of!(Form { o: [Owner::LabelPtr(QROOT_OFF), Owner::Inline], ..F_ONE }, Form { o: [Owner::InlineExt, Owner::Inline], ..F_ONE });
@@ -871,7 +871,7 @@ mod v_socket_dns {
         kani::cover!(sel == 1 && o.failed && o.rcode == 0 && o.other_name && o.an == 1, "record owned by an extension of the queried name ignored");
     }
 
-    // @harness props=C19,C03,C07 cfg=KN tier=q to=900 mem=8 unwind=7 opts=nomem covers=2 funcs=dns::Socket::accepts;dns::Socket::process;dns::Socket::start_query;wire::dns::Packet::parse_name;wire::dns::Question::parse;wire::dns::Record::parse;wire::dns::RecordData::parse;dns::eq_names;dns::copy_name bounds=query_name_<1>x<1>y_with_symbolic_label_bytes,_type_A_or_AAAA,_txid/port/timers_symbolic;_response_=_byte_template_with_symbolic_id/flags/QDCOUNT/ANCOUNT/NSCOUNT/ARCOUNT,_question_<1>x<1>y_with_symbolic_label_bytes_and_TYPE,_concrete_record_layout_per_arm_with_symbolic_TTL/RDATA;_source_any_IPv4_or_2001:db8::x,_ports_any;_arms:_dns_process_ptrq_a's_template_with_question_CLASS_2_/_record_CLASS_2
+    // @harness props=C19,C03:t,C07 cfg=KN tier=q to=900 mem=8 unwind=7 opts=nomem covers=2 funcs=dns::Socket::accepts;dns::Socket::process;dns::Socket::start_query;wire::dns::Packet::parse_name;wire::dns::Question::parse;wire::dns::Record::parse;wire::dns::RecordData::parse;dns::eq_names;dns::copy_name bounds=query_name_<1>x<1>y_with_symbolic_label_bytes,_type_A_or_AAAA,_txid/port/timers_symbolic;_response_=_byte_template_with_symbolic_id/flags/QDCOUNT/ANCOUNT/NSCOUNT/ARCOUNT,_question_<1>x<1>y_with_symbolic_label_bytes_and_TYPE,_concrete_record_layout_per_arm_with_symbolic_TTL/RDATA;_source_any_IPv4_or_2001:db8::x,_ports_any;_arms:_dns_process_ptrq_a's_template_with_question_CLASS_2_/_record_CLASS_2
     #[kani::proof]
     pub(crate) fn dns_process_bad_class() {
         let (sel, o) = one_of!(Form { qclass: 2, ..F_ONE }, Form { class: [2, 1], ..F_ONE });
@@ -955,7 +955,7 @@ mod v_socket_dns {
     }
 
     // measured alone: 413 s, 5 GB
-    // @harness props=C19,C07,C03 cfg=KN tier=t to=1800 mem=8 unwind=10 opts=term covers=3 funcs=wire::dns::Packet::parse_name bounds=message_of_0..=8_fully_symbolic_bytes;_name_iterated_from_any_offset;_unwind_10_=_N+2
+    // @harness props=C19,C07,C03:t cfg=KN tier=t to=1800 mem=8 unwind=10 opts=term covers=3 funcs=wire::dns::Packet::parse_name bounds=message_of_0..=8_fully_symbolic_bytes;_name_iterated_from_any_offset;_unwind_10_=_N+2
     #[kani::proof]
     pub(crate) fn dns_name_iter_free8() {
         name_iter_free::<8>();
